@@ -136,6 +136,26 @@ Fixpoint ls_loop (fuel : nat) (pos g : vec) (start_energy : Qc) (v : lsst) : opt
     match fuel with O => None | S k => ls_loop k pos g start_energy (ls_step pos g start_energy v) end
   else Some v.
 
+(* the sequence of trial points whose energy is evaluated (observable through fun_and_grad) *)
+Fixpoint ls_eager_trace (fuel idx : nat) (pos g : vec) (energy gs : Qc) (dd : vec) : list vec :=
+  match fuel with
+  | O => []
+  | S k =>
+    let new_pos := axpy n (- gs) dd pos in
+    new_pos ::
+    (if Qcleb (f new_pos) energy then []
+     else if Nat.eqb idx 5 then ls_eager_trace k (S idx) pos g energy 1 (reset_dir pos g)
+     else ls_eager_trace k (S idx) pos g energy (gs / two) dd)
+  end.
+
+Fixpoint ls_loop_trace (fuel : nat) (pos g : vec) (start_energy : Qc) (v : lsst) : list vec :=
+  if Z.ltb (lstatus v) (-1) then
+    match fuel with
+    | O => []
+    | S k => let v' := ls_step pos g start_energy v in lpos v' :: ls_loop_trace k pos g start_energy v'
+    end
+  else [].
+
 Definition ls_init (pos g nat_g : vec) : lsst :=
   {| lstatus := (-2)%Z; lit := 0; lpos := pos; len := 0; ldd := nat_g; lgs := 1 |}.
 
@@ -183,9 +203,24 @@ Fixpoint static_nloop (fuel : nat) (v : zst) : option zst :=
   else Some v.
 
 (* "status": jnp.where(maxiter == 0, 0, -2) ;  "old_energy": old_fval if old_fval is not None else jnp.inf *)
+(* trial points of the FIRST Newton iteration, eager resp. compiled *)
+Definition first_trials_eager (x0 : vec) : list vec :=
+  let s := ninit x0 in
+  match cg false (hessp x0) (ng s) (eager_cg_absdelta s) (cg_resnorm (ng s)) with
+  | Done nat_g _ _ => ls_eager_trace 9 0 x0 (ng s) (nen s) 1 nat_g
+  | _ => []
+  end.
+
 Definition sinit (x0 : vec) : zst :=
   {| zpos := x0; zen := f x0; zold := old_fval0 c; zg := grad x0; zit := 0;
      zstatus := if Nat.eqb (nmaxiter c) 0 then 0%Z else (-2)%Z; zraised := false; zoof := false |}.
+
+Definition first_trials_static (x0 : vec) : list vec :=
+  let v := sinit x0 in
+  match cg true (hessp x0) (zg v) (Some (static_cg_absdelta v)) (cg_resnorm (zg v)) with
+  | Done nat_g _ _ => ls_loop_trace 10 x0 (zg v) (zen v) (ls_init x0 (zg v) nat_g)
+  | _ => []
+  end.
 
 Definition run_newton_static (fuel : nat) (x0 : vec) : nresult :=
   match static_nloop fuel (sinit x0) with
@@ -317,3 +352,19 @@ Definition chk_newton (n : nat) (a b c_ : list Q) (k : Q) (x0 : list Q) (cf : nc
   let cg := cg_c15 n (qc eps) (qc tiny) in
   nresult_matches n (qc tolx) (qc tolf) (run_newton_eager n f g h sqrt_approx cg cf (qv x0)) re (qv xe) se ne (qc fe) &&
   nresult_matches n (qc tolx) (qc tolf) (run_newton_static n f g h sqrt_approx cg cf (nmaxiter cf + 2) (qv x0)) rs (qv xs) ss ns (qc fs).
+
+(* the logged sequences of trial points of the first iteration (eager, compiled) against the model *)
+Fixpoint vlist_close (n : nat) (tolx : Qc) (a b : list vec) : bool :=
+  match a, b with
+  | [], [] => true
+  | x :: a', y :: b' => vclose n tolx x y && vlist_close n tolx a' b'
+  | _, _ => false
+  end.
+Definition chk_trials (n : nat) (a b c_ : list Q) (k : Q) (x0 : list Q) (cf : ncfg) (eps tiny tolx : Q)
+                      (te ts : list (list Q)) : bool :=
+  let f := poly_f n (qv a) (qv b) (qv c_) (qc k) in
+  let g := poly_grad n (qv a) (qv b) (qv c_) (qc k) in
+  let h := poly_hessp n (qv a) (qv b) (qc k) in
+  let cg := cg_c15 n (qc eps) (qc tiny) in
+  vlist_close n (qc tolx) (first_trials_eager n f g h sqrt_approx cg cf (qv x0)) (qm te) &&
+  vlist_close n (qc tolx) (first_trials_static n f g h sqrt_approx cg cf (qv x0)) (qm ts).
